@@ -6,6 +6,7 @@ import (
 	"fmt"
 	"os"
 	"path/filepath"
+	"bytes"
 	"strings"
 	"testing"
 	"time"
@@ -27,6 +28,8 @@ type fsFile struct {
 	version int
 	model   *provsim.SourceModel
 }
+
+const fsBadExpansion = "${HOME:0:-1}"
 
 func fsProvSim(r *simcore.Run) {
 	s := r.Src
@@ -63,6 +66,15 @@ func fsProvSim(r *simcore.Run) {
 		}
 	}
 	p := &Provider{src: dir, p: rec, l: zerolog.Nop(), configured: true}
+	// env_vars_enabled: rule sets may refer to the environment; a reference the substitution cannot evaluate makes the
+	// version unusable (by construction - the harness does not ask the parser about that one)
+	p.envVarsEnabled = s.Draw(3, "env-vars-enabled") == 2
+	classify := func(data []byte) (string, string) {
+		if p.envVarsEnabled && bytes.Contains(data, []byte(fsBadExpansion)) {
+			return "invalid", ""
+		}
+		return provsim.Classify(data)
+	}
 	// in half of the runs the events travel through the provider's own watch loop (a watcher value with nothing but
 	// its channels): an event with no operation bit is ignored by the handler, and since the loop handles one event at a
 	// time, its reception means that the event before has been handled completely
@@ -81,7 +93,7 @@ func fsProvSim(r *simcore.Run) {
 			f.model.Gone(how + ": file does not exist")
 			return
 		}
-		switch kind, id := provsim.Classify(data); kind {
+		switch kind, id := classify(data); kind {
 		case "valid":
 			if rec.Rejecting && rec.Active("file_system:"+f.path) != id {
 				f.model.Kept(how + ": rejected " + id)
@@ -180,7 +192,13 @@ func fsProvSim(r *simcore.Run) {
 			r.Logf("op%d torn overwrite %s v%d (cut at %d)", op, n, f.version, cut)
 			nontrivial = true
 		case k == 3: // invalid content
-			os.WriteFile(f.path, []byte("version: \"1alpha4\"\nrules:\n  - id: [unclosed\n"), 0o600)
+			bad := []byte("version: \"1alpha4\"\nrules:\n  - id: [unclosed\n")
+			if p.envVarsEnabled && s.Draw(2, "unusable-expansion") == 1 {
+				// a complete rule set with an expansion the substitution chokes on
+				bad = []byte(strings.Replace(provsim.RuleSetYAML(strings.TrimSuffix(n, ".yaml"), f.version+1, 1), "name: ", "name: "+fsBadExpansion+"-", 1))
+				r.Count("versions-with-an-unusable-expansion", 1)
+			}
+			os.WriteFile(f.path, bad, 0o600)
 			stamp(f.path)
 			ev(fsnotify.Write)
 			r.Logf("op%d write invalid content to %s", op, n)
@@ -257,7 +275,7 @@ func fsProvSim(r *simcore.Run) {
 		f := files[n]
 		// rejected content becomes applicable again once the rejection is lifted: the next notification must load it
 		if data, err := os.ReadFile(f.path); err == nil {
-			if kind, id := provsim.Classify(data); kind == "valid" && rec.Active("file_system:"+f.path) != id {
+			if kind, id := classify(data); kind == "valid" && rec.Active("file_system:"+f.path) != id {
 				if !deliver(pend{ev: fsnotify.Event{Name: f.path, Op: fsnotify.Chmod}}) {
 					return
 				}
@@ -267,7 +285,7 @@ func fsProvSim(r *simcore.Run) {
 		data, err := os.ReadFile(f.path)
 		kind, id := "missing", ""
 		if err == nil {
-			kind, id = provsim.Classify(data)
+			kind, id = classify(data)
 		}
 		switch kind {
 		case "valid":
